@@ -148,6 +148,24 @@ def configs_full():
     return out
 
 
+def _tau_rule(iterate, lamb, rho):
+    """A user-supplied active-set rule (Params.active_set_method)."""
+    return 0.5 / lamb
+
+
+PARAM_VARIANTS = [
+    {"opt_tol": 1e-3}, {"opt_tol": 1e-9}, {"active_tol": 1e-4}, {"active_tol": 1e-12}, {"local_infeas_tol": 1e-4},
+    {"newton_tol": 1e-5}, {"newton_tol": 1e-11}, {"theta_max": 0.5, "theta_ref": 0.25}, {"theta_max": 0.99, "theta_ref": 0.9},
+    {"K_P": 0.0, "K_I": 0.0}, {"K_P": 1.0, "K_I": 0.1}, {"lamb_inc": 4.0, "lamb_red": 0.25}, {"lamb_min": 0.5}, {"lamb_init": 1e-3}, {"lamb_init": 100.0},
+    {"validate_input": False}, {"active_set_method": _tau_rule},
+    {"lamb_inc": 1.25}, {"lamb_red": 1.0}, {"local_infeas_tol": 1e-12}, {"opt_tol": 1e-10, "active_tol": 1e-8},
+]
+
+
+def variant_key(v):
+    return "|".join(f"{k}={getattr(val, '__name__', val)}" for k, val in sorted(v.items()))
+
+
 def slice_of(lst, seed, k):
     """Slice `seed mod k` of a table (the quick tier adds one slice of the thorough table)."""
     s = seed % k
@@ -160,6 +178,21 @@ def scalings_of(spec, which=(0, 1, 3, 4, 5)):
     at = S.project(at, spec["var_lb"], spec["var_ub"])
     allsc = S.scalings(n, m, at)
     return [allsc[i] for i in which]
+
+
+def with_variant(case):
+    """cfg["pv"] = index into PARAM_VARIANTS (kept as an index so that cases stay JSON-serialisable)."""
+    cfg = case.get("cfg", {})
+    if "pv" not in cfg:
+        return case
+    c = dict(cfg)
+    vi = c.pop("pv")
+    p = dict(c.get("params") or {})
+    p.update(PARAM_VARIANTS[vi])
+    c["params"] = p
+    out = dict(case)
+    out["cfg"] = c
+    return out
 
 
 class Ctx:
